@@ -84,6 +84,7 @@ class Ctx:
         self.defs = []              # definitional axioms (sqrt etc.)
         self.memo = {}              # per-path memo for stubs (function of structural argument)
         self.refine = []            # defining equations of abstracted operations (SQ(t) == t*t ...)
+        self.relerr = None          # harness option: RelErr float model, unit round-off u (e.g. Fraction(1, 2**53))
         self.abstract_log = False   # harness option: log(x) as a fresh real per distinct argument
         self.abstract_terms = []    # (kind, variable, argument) of operations abstracted WITHOUT refinement
         self.purify_div = False     # harness option: quotients as fresh variables with q*b == a
@@ -1135,7 +1136,26 @@ def _pure_div(a, b):
     return q
 
 
+def _round(v):
+    """RelErr float model (ctx.relerr = u): every operation result is multiplied by (1+d), |d| <= u.  A sound
+    over-approximation of IEEE rounding for results in the normal range (no overflow / underflow)."""
+    if not active() or not getattr(cur(), 'relerr', None) or _isc(v):
+        return v
+    ctx = cur()
+    d = z3.Real(ctx.name('rnd'))
+    u = ctx.relerr
+    ctx.add(z3.And(d >= -u, d <= u))
+    return v * (1 + d)
+
+
 def fl_arith(op, a, b, pyscalar=False):
+    r = _fl_arith(op, a, b, pyscalar)
+    if isinstance(r, SFloat) and r.fin is True and active() and getattr(cur(), 'relerr', None):
+        return SFloat(K_FIN, _round(r.v))
+    return r
+
+
+def _fl_arith(op, a, b, pyscalar=False):
     fa, fb = a.fin, b.fin
     if fa is True and fb is True:
         if op != '/':
@@ -1154,7 +1174,7 @@ def fl_arith(op, a, b, pyscalar=False):
         nb = SFloat(I(b.pinf, K_NINF, I(b.ninf, K_PINF, b.k)) if not _isc(b.k) else
                     ({K_PINF: K_NINF, K_NINF: K_PINF}.get(b.k, b.k)),
                     _arith('-', 0, b.v, True))
-        return fl_arith('+', a, nb)
+        return _fl_arith('+', a, nb)
     if op == '+':
         nan = OR(a.nan, b.nan, AND(a.pinf, b.ninf), AND(a.ninf, b.pinf))
         pinf = AND(NOT(nan), OR(a.pinf, b.pinf))
